@@ -100,7 +100,7 @@ Proof. destruct d as [i []]; cbn [diff_void_f diff_void]; try reflexivity; apply
 Theorem same_molecule_f_eq m1 m2 : same_molecule_f m1 m2 = same_molecule m1 m2.
 Proof.
   unfold same_molecule_f, same_molecule. cbv zeta. rewrite !exists_iso_eq. f_equal.
-  apply existsb_ext. intro phi. apply forallb_ext'. intro d. apply diff_void_f_eq.
+  apply existsb_ext. intro phi. f_equal. apply forallb_ext'. intro d. apply diff_void_f_eq.
 Qed.
 
 Theorem same_constitution_f_eq m1 m2 : same_constitution_f m1 m2 = same_constitution m1 m2.
@@ -112,7 +112,7 @@ Qed.
 Theorem mirror_image_f_eq m1 m2 : mirror_image_f m1 m2 = mirror_image m1 m2.
 Proof.
   unfold mirror_image_f, mirror_image. cbv zeta. rewrite exists_iso_eq.
-  apply existsb_ext. intro phi. apply forallb_ext'. intro i.
+  apply existsb_ext. intro phi. f_equal. apply forallb_ext'. intro i.
   destruct (a_chir _); rewrite ?diff_void_f_eq, ?void_centre_f_eq; reflexivity.
 Qed.
 
@@ -122,13 +122,13 @@ Proof. unfold iso_profiles_f, iso_profiles. cbv zeta. rewrite all_isos_f_eq. ref
 Theorem same_except_at_f_eq m1 m2 ok : same_except_at_f m1 m2 ok = same_except_at m1 m2 ok.
 Proof.
   unfold same_except_at_f, same_except_at. cbv zeta. rewrite exists_iso_eq.
-  apply existsb_ext. intro phi. apply forallb_ext'. intro d. rewrite diff_void_f_eq. reflexivity.
+  apply existsb_ext. intro phi. f_equal. apply forallb_ext'. intro d. rewrite diff_void_f_eq. reflexivity.
 Qed.
 
 Theorem inverted_exactly_at_f_eq m1 m2 at_ : inverted_exactly_at_f m1 m2 at_ = inverted_exactly_at m1 m2 at_.
 Proof.
   unfold inverted_exactly_at_f, inverted_exactly_at. cbv zeta. rewrite exists_iso_eq.
-  apply existsb_ext. intro phi. apply forallb_ext'. intro i. rewrite diff_void_f_eq. reflexivity.
+  apply existsb_ext. intro phi. f_equal. apply forallb_ext'. intro i. rewrite diff_void_f_eq. reflexivity.
 Qed.
 
 (* the decision "the output denotes the glycan" run with the fast search is the specified one *)
